@@ -1,3 +1,9 @@
+//! vf-bp-c: blueprint-level checks on the engine world (R6): the non-fungible resource manager
+//! (C43) and the consensus manager's clock (C44).
+
+pub mod c43;
+pub mod c44;
+
 pub fn checks() -> Vec<vf_core::Check> {
-    vec![]
+    vec![c43::check(), c44::check()]
 }
